@@ -25,22 +25,23 @@ Proof.
   apply existsb_exists. exists g'. split; [exact Hg'|]. apply Z.eqb_eq, E.
 Qed.
 
-Lemma dalloc_ok uid g : group_ok g = true -> palloc_ok (dalloc uid g).
+Lemma dalloc_ok ds uid g : group_ok g = true -> NoDup (gvfs ds uid (fst g)) -> palloc_ok (dalloc ds uid g).
 Proof.
-  intros H. unfold group_ok in H. apply andb_true_iff in H. destruct H as [_ H].
-  split; cbn [dalloc pa_cpus pa_numa]; [constructor|].
+  intros H Hnd. unfold group_ok in H. apply andb_true_iff in H. destruct H as [_ H].
+  split; cbn [dalloc pa_cpus pa_numa]; [exact Hnd|].
   intros e He. apply in_map_iff in He. destruct He as (x & <- & Hx). cbn [snd].
   rewrite forallb_forall in H. specialize (H x Hx). rewrite !andb_true_iff, !Z.leb_le in H.
   unfold pair_nonneg. tauto.
 Qed.
 
 (* dev_add / dev_del keep the ledger invariant *)
-Lemma dev_add_Inv st node uid gs :
-  Inv no_topo st -> forallb group_ok gs = true -> Inv no_topo (dev_add st node uid gs).
+Lemma dev_add_Inv ds st node uid gs :
+  (forall t, NoDup (gvfs ds uid t)) ->
+  Inv no_topo st -> forallb group_ok gs = true -> Inv no_topo (dev_add ds st node uid gs).
 Proof.
-  unfold dev_add. revert st. induction gs as [|g t IH]; intros st HI Hg; [exact HI|].
+  intros Hvf. unfold dev_add. revert st. induction gs as [|g t IH]; intros st HI Hg; [exact HI|].
   cbn [fold_left]. cbn [forallb] in Hg. apply andb_true_iff in Hg. destruct Hg as [Hg Ht].
-  apply IH; [|exact Ht]. apply add_pod_Inv; [exact HI|apply dalloc_ok, Hg].
+  apply IH; [|exact Ht]. apply add_pod_Inv; [exact HI|apply dalloc_ok; [exact Hg|apply Hvf]].
 Qed.
 Lemma dev_del_Inv st node uid gs : Inv no_topo st -> Inv no_topo (dev_del st node uid gs).
 Proof.
@@ -49,18 +50,18 @@ Proof.
 Qed.
 
 (* what they list *)
-Lemma dev_add_find st node uid gs n k :
-  find_pod (ns_pods (dev_add st node uid gs)) n k =
+Lemma dev_add_find ds st node uid gs n k :
+  find_pod (ns_pods (dev_add ds st node uid gs)) n k =
   match find_pod (ns_pods st) n k with
   | Some q => Some q
   | None => if n =? node
-            then match find (fun g => dkey uid (fst g) =? k) gs with Some g => Some (dalloc uid g) | None => None end
+            then match find (fun g => dkey uid (fst g) =? k) gs with Some g => Some (dalloc ds uid g) | None => None end
             else None
   end.
 Proof.
   unfold dev_add. revert st. induction gs as [|g t IH]; intros st; cbn [fold_left find].
   - destruct (find_pod (ns_pods st) n k); [reflexivity|]. destruct (n =? node); reflexivity.
-  - rewrite IH, add_pod_find_gen. cbn [dalloc pa_uid]. fold (dalloc uid g).
+  - rewrite IH, add_pod_find_gen. cbn [dalloc pa_uid]. fold (dalloc ds uid g).
     destruct (n =? node) eqn:En; cbn [andb].
     + apply Z.eqb_eq in En. subst n. rewrite (Z.eqb_sym k).
       destruct (dkey uid (fst g) =? k) eqn:Ek.
@@ -90,6 +91,24 @@ Section Dev.
   Qed.
   Lemma ddesc_groups_ok u : dvalid ds u = true -> forallb group_ok (dd_groups (ddesc_of ds u)) = true.
   Proof. intros Hv. pose proof (ddesc_valid u Hv) as H. unfold ddesc_ok in H. rewrite !andb_true_iff in H. apply H. Qed.
+  Lemma nodupZ_NoDup l : nodupZ l = true -> NoDup l.
+  Proof.
+    induction l as [|x t IH]; intros H; [constructor|]. cbn [nodupZ] in H. apply andb_true_iff in H.
+    destruct H as [H1 H2]. constructor; [|apply IH, H2]. apply negb_true_iff in H1. apply memZ_false, H1.
+  Qed.
+  Lemma vfgroup_valid u t x :
+    dvalid ds u = true -> find (fun x => fst x =? t) (dd_vfs (ddesc_of ds u)) = Some x -> vfgroup_ok x = true.
+  Proof.
+    intros Hv Hf. pose proof (ddesc_valid u Hv) as H. unfold ddesc_ok in H. rewrite !andb_true_iff in H.
+    destruct H as [_ H]. rewrite forallb_forall in H. apply H. apply find_some in Hf. apply Hf.
+  Qed.
+  Lemma gvfs_nodup u : dvalid ds u = true -> forall t, NoDup (gvfs ds u t).
+  Proof.
+    intros Hv t. unfold gvfs, vfs_of. destruct (find (fun x => fst x =? t) (dd_vfs (ddesc_of ds u))) as [x|] eqn:Ef; [|constructor].
+    pose proof (vfgroup_valid u t x Hv Ef) as H. unfold vfgroup_ok in H. rewrite !andb_true_iff in H.
+    destruct H as [[_ H] _]. apply nodupZ_NoDup in H.
+    apply FinFun.Injective_map_NoDup; [|exact H]. intros a b E. unfold gvf in E. lia.
+  Qed.
   Lemma ddesc_node_nz u : dvalid ds u = true -> (dd_node (ddesc_of ds u) =? 0) = false.
   Proof.
     intros Hv. pose proof (ddesc_valid u Hv) as H. unfold ddesc_ok in H. rewrite !andb_true_iff, Z.leb_le in H.
@@ -135,7 +154,7 @@ Section Dev.
     let u := k / 10 in
     if sel u && (dd_node (ddesc_of ds u) =? n)
     then match find (fun g => fst g =? k mod 10) (dd_groups (ddesc_of ds u)) with
-         | Some g => Some (dalloc u g) | None => None end
+         | Some g => Some (dalloc ds u g) | None => None end
     else None.
   Definition dlisted (st : nstate) (sel : Z -> bool) : Prop :=
     forall n k, find_pod (ns_pods st) n k = dexp sel n k.
@@ -145,7 +164,7 @@ Section Dev.
 
   Lemma dlisted_add st sel uid :
     dvalid ds uid = true -> dlisted st sel ->
-    dlisted (dev_add st (dd_node (ddesc_of ds uid)) uid (dd_groups (ddesc_of ds uid)))
+    dlisted (dev_add ds st (dd_node (ddesc_of ds uid)) uid (dd_groups (ddesc_of ds uid)))
             (fun u => if u =? uid then true else sel u).
   Proof.
     intros Hv HL n k. rewrite dev_add_find, HL, (find_key_decode _ _ _ (ddesc_groups_ok uid Hv)).
@@ -194,13 +213,13 @@ Section Dev.
   Lemma dh_update_bound st old uid :
     dvalid ds uid = true ->
     (old = None \/ old = Some (dpending uid) \/ old = Some (dbound ds uid false)) ->
-    dh_update st old (dbound ds uid false) =
+    dh_update ds st old (dbound ds uid false) =
     let d := ddesc_of ds uid in
     if is_nil (dd_groups d) then st
     else match old with
-         | Some od => if do_node od =? 0 then dev_add st (dd_node d) uid (dd_groups d)
-                      else dev_add (dev_del st (dd_node d) uid (dd_groups d)) (dd_node d) uid (dd_groups d)
-         | None => dev_add st (dd_node d) uid (dd_groups d)
+         | Some od => if do_node od =? 0 then dev_add ds st (dd_node d) uid (dd_groups d)
+                      else dev_add ds (dev_del st (dd_node d) uid (dd_groups d)) (dd_node d) uid (dd_groups d)
+         | None => dev_add ds st (dd_node d) uid (dd_groups d)
          end.
   Proof.
     intros Hv Hold. unfold dh_update, dbound. cbn [do_node do_term do_groups do_uid].
@@ -211,7 +230,7 @@ Section Dev.
     - rewrite (ddesc_node_nz uid Hv). rewrite andb_diag. destruct (dd_groups (ddesc_of ds uid)) eqn:Eg; reflexivity.
   Qed.
 
-  Lemma dev_add_nil st node uid : dev_add st node uid [] = st. Proof. reflexivity. Qed.
+  Lemma dev_add_nil st node uid : dev_add ds st node uid [] = st. Proof. reflexivity. Qed.
   Lemma dev_del_nil st node uid : dev_del st node uid [] = st. Proof. reflexivity. Qed.
 
   Lemma dsel_upd life live uid v u :
@@ -236,7 +255,7 @@ Section Dev.
       destruct (u =? uid) eqn:E; [|reflexivity]. rewrite andb_false_r. reflexivity. }
     destruct ((k =? 1) && (s =? 0)) eqn:C1.
     { constructor; cbn [dl_st dl_life]; [| |apply Hlife'].
-      - apply dev_add_Inv; [exact HI|apply ddesc_groups_ok, Hv].
+      - apply dev_add_Inv; [apply gvfs_nodup, Hv|exact HI|apply ddesc_groups_ok, Hv].
       - eapply dlisted_ext; [apply (Hset 1 eq_refl)|]. apply dlisted_add; assumption. }
     destruct ((k =? 2) && (s =? 1)) eqn:C2.
     { constructor; cbn [dl_st dl_life]; [apply dev_del_Inv, HI| |apply Hlife'].
@@ -244,7 +263,7 @@ Section Dev.
     destruct ((k =? 3) && (s =? 1)) eqn:C3.
     { rewrite (dh_update_bound _ _ _ Hv (or_intror (or_introl eq_refl))). cbn zeta. cbn [dpending do_node Z.eqb]. fold d.
       constructor; cbn [dl_st dl_life]; [| |apply Hlife'].
-      - destruct (is_nil (dd_groups d)); [exact HI|]. apply dev_add_Inv; [exact HI|apply ddesc_groups_ok, Hv].
+      - destruct (is_nil (dd_groups d)); [exact HI|]. apply dev_add_Inv; [apply gvfs_nodup, Hv|exact HI|apply ddesc_groups_ok, Hv].
       - eapply dlisted_ext; [apply (Hset 2 eq_refl)|].
         destruct (dd_groups d) eqn:Eg; cbn [is_nil].
         + rewrite <- (dev_add_nil (dl_st l) (dd_node d) uid), <- Eg. apply dlisted_add; assumption.
@@ -262,7 +281,7 @@ Section Dev.
         unfold dsel. fold s. rewrite Hv, Hs. reflexivity. }
       constructor; cbn [dl_st dl_life]; [| |exact Hlife].
       - destruct (is_nil (dd_groups d)); [exact HI|].
-        apply dev_add_Inv; [apply dev_del_Inv, HI|apply ddesc_groups_ok, Hv].
+        apply dev_add_Inv; [apply gvfs_nodup, Hv|apply dev_del_Inv, HI|apply ddesc_groups_ok, Hv].
       - destruct (is_nil (dd_groups d)); [exact HL|].
         eapply dlisted_ext; [apply Hsame|]. apply dlisted_add; [exact Hv|]. apply dlisted_del; assumption. }
     destruct ((k =? 7) && (s =? 2)) eqn:C7.
@@ -286,8 +305,8 @@ Section Dev.
     dvalid ds u = true -> dobj_of ds life u = Some o ->
     (old = None \/ old = Some (dpending u) \/ old = Some o) ->
     Inv no_topo st -> dlisted st (fun v => dl v && dsel life false v) ->
-    Inv no_topo (dh_update st old o)
-    /\ dlisted (dh_update st old o) (fun v => upd1 dl u true v && dsel life false v).
+    Inv no_topo (dh_update ds st old o)
+    /\ dlisted (dh_update ds st old o) (fun v => upd1 dl u true v && dsel life false v).
   Proof.
     intros Hv Ho Hold HI HL. unfold dobj_of in Ho.
     assert (Hpart : forall b, dsel life false u = b -> forall v,
@@ -310,15 +329,15 @@ Section Dev.
           rewrite <- (dev_add_nil st (dd_node (ddesc_of ds u)) u), <- Eg. apply dlisted_add; assumption.
         * rewrite <- Eg.
           destruct Hold as [->|[->| ->]]; cbn [dpending dbound do_node Z.eqb]; try rewrite (ddesc_node_nz u Hv).
-          -- split; [apply dev_add_Inv; [exact HI|apply ddesc_groups_ok, Hv]|].
+          -- split; [apply dev_add_Inv; [apply gvfs_nodup, Hv|exact HI|apply ddesc_groups_ok, Hv]|].
              eapply dlisted_ext; [apply (Hpart true Hsel)|]. apply dlisted_add; assumption.
-          -- split; [apply dev_add_Inv; [exact HI|apply ddesc_groups_ok, Hv]|].
+          -- split; [apply dev_add_Inv; [apply gvfs_nodup, Hv|exact HI|apply ddesc_groups_ok, Hv]|].
              eapply dlisted_ext; [apply (Hpart true Hsel)|]. apply dlisted_add; assumption.
-          -- split; [apply dev_add_Inv; [apply dev_del_Inv, HI|apply ddesc_groups_ok, Hv]|].
+          -- split; [apply dev_add_Inv; [apply gvfs_nodup, Hv|apply dev_del_Inv, HI|apply ddesc_groups_ok, Hv]|].
              eapply dlisted_ext; [|apply dlisted_add; [exact Hv|apply dlisted_del; [exact Hv|exact HL]]].
              intros v. cbn beta. rewrite <- (Hpart true Hsel v). destruct (v =? u); reflexivity.
     - injection Ho as <-.
-      assert (Hc : dh_update st old (dpending u) = st).
+      assert (Hc : dh_update ds st old (dpending u) = st).
       { unfold dh_update, dpending. cbn [do_node Z.eqb]. destruct Hold as [->|[->| ->]]; reflexivity. }
       rewrite Hc. split; [exact HI|]. eapply dlisted_ext; [|exact HL]. intros v. unfold upd1.
       destruct (v =? u) eqn:E; [|reflexivity]. apply Z.eqb_eq in E. subst v.
